@@ -76,7 +76,7 @@ def run(c):
         if follows_model and history_overlap(res['spec'][i]):
             cls = 'illegal-configuration:history-overlap'
         # inside the reach of run_always_legal_history / _fast the models cannot produce an illegal configuration at all
-        if reach[i].get('reach', {}).get('wf_histb' if eng == 'large' else 'wf_fastb'):
+        if reach[i].get('reach', {}).get('wf_histpb'):   # run_always_legal_history_parallel(_fast): both engines
             cls += '+inside-run_always_legal_history'
         by_class.setdefault((eng, cls), []).append((i, cf))
     c.cov['illegal_by_class'] = {'%s/%s' % k: len(v) for k, v in by_class.items()}
